@@ -42,6 +42,8 @@ def tl2_sig(u, name, g, i):
         return f"C12:F18:tl2-true-typed-field-under-mask:{name}"        # `x:fm.b?true`: generated = mask bit only, interpreter = bit + object
     if g.startswith("ok") and i.startswith("ok") and tid is not None and reaches(u.ins, tid, lambda x: x["kind"] in ("array", "dict")):
         return f"C12:F19:tl2-written-bytes-differ:{name}"         # both accept, the TL2 bytes written differ
+    if tid is not None and g.split(" ")[0] != i.split(" ")[0] and reaches(u.ins, tid, lambda x: x["kind"] == "array" and x.get("isTuple")):
+        return f"C12:F22:tl2-tuple-count-mismatch:{name}"             # TL2 element count != declared tuple size: one accepts, the other rejects
     return f"C12:tl2:{u.name}:{name}"
 
 
@@ -279,7 +281,7 @@ def run(ctx):
             ctx.violation(f"{pid}:tools", "cannot build tools / interpreter harness from /repo: " + trunc(berr, 600), {"error": berr}, no_input=True)
         if ref_err:
             ctx.violation(f"{pid}:model-build", "reference model does not build: " + trunc(ref_err, 600), {"error": ref_err}, no_input=True)
-        for name, e in unit_errors[:10]:
+        for name, e in [x for x in unit_errors if not obj_lib.generator_side(x)][:10]:
             ctx.violation(f"{pid}:unit:{name}", f"schema unit {name}: {trunc(e, 600)}", {"unit": name, "error": e}, no_input=True)
         for name, l, m, g in mism[:30]:
             ctx.violation(f"{pid}:corr:{name}:{trunc(l, 60)}", f"corr:C12:otf {name}: generated code and interpreter agree with each other but not with the model on {trunc(l, 140)}: model={trunc(m, 90)} both={trunc(g, 90)}",
@@ -300,6 +302,7 @@ def run(ctx):
                 "mutated TL1 inputs on which the length-sanity check decides are not given to the interpreter (it allocates `count` values before reading)",
         "stats": stats, "correspondence": "corr:C12:otf", "correspondence_mismatches": len(mism), "oracle_failures": len(bad),
         "unsupported_by_interpreter": unsupported[:60],
+        "random_schemas_not_built": [{"unit": n, "error": trunc(e, 300)} for n, e in unit_errors if obj_lib.generator_side((n, e))],
         "samples": samples or [{"note": "no ops ran"}],
         "schemas": [{"name": u.name, "options": u.options, "instances": len(u.ins or []), "error": trunc(u.error, 200) if u.error else None} for u in units],
     })
